@@ -1,8 +1,9 @@
 (* Extract.v — extraction of the executable model to OCaml.
    Only ExtrOcamlBasic is used: bool/option/unit/list/prod/sumbool/sumor map to OCaml types,
    andb/orb are inlined; N, Z, positive, nat, string and ascii stay Coq inductives. *)
-From PyUbx Require Import Base Bytes Fletcher Frame.
+From PyUbx Require Import Base Bytes Fletcher Frame Reader Socket.
 Require Import ExtrOcamlBasic.
 Extraction "model.ml"
   fletcher fletcher_spec isvalid_checksum parse_front wellformedb mk_frame
-  pyslice enc_le uint_of_le int_enc int_dec.
+  pyslice enc_le uint_of_le int_enc int_dec
+  file_read_all sock_run abs protocol flatten deliver.
